@@ -83,6 +83,7 @@ CATALOGUE: Dict[str, Tuple[str, str]] = {
     "for_over_int": ("none", "try:\n    for x in 5:\n        print(x)\nexcept TypeError:\n    print('not iterable')"),
     "tail_then_dedent": ("none", "def tail(f):\n    if f:\n        print(1)\n        print(3)\n    else:\n        print(2)\n        print(3)\nprint(tail(1))"),
     "format_errors_const": ("none", "try:\n    if '{} {}'.format('a'):\n        print(1)\nexcept IndexError:\n    print('index')"),
+    "dup_functions_semicolon": ("none", "def twin_a(v):\n    return v + 1\n\n\ndef twin_b(v):\n    return v + 1\n\n\ndef report(width, height):\n    area = width * height;\n    text = 'a;  b'\n    return area, text\n\n\nprint(twin_a(1), twin_b(1), report(2, 3))"),
     "zerodiv_const": ("none", "if 1 / 0:\n    print(1)"),
     "illtyped_const": ("none", "while 'a' < 1:\n    print(1)\n    break"),
     "exit_in_condition": ("none", "if exit():\n    print(1)"),
